@@ -192,6 +192,9 @@ pub trait ProgIt: Sized {
     fn rest_each(self, f: &mut dyn FnMut(&mut Self::T)) -> Vec<Self::T>;
     fn rest_count(self) -> usize;
     fn rest_last(self) -> Option<Self::T>;
+    fn rest_collect(self) -> Vec<Self::T>;
+    /// (visited from the back?, elements in the order visited)
+    fn rest_rev_each(self, f: &mut dyn FnMut(&mut Self::T)) -> (bool, Vec<Self::T>);
     fn rest_min(self) -> Option<Self::T>;
     fn rest_max(self) -> Option<Self::T>;
 }
@@ -226,6 +229,12 @@ where
             v.push(x)
         });
         v
+    }
+    fn rest_collect(self) -> Vec<I::Item> {
+        self.0.collect()
+    }
+    fn rest_rev_each(self, f: &mut dyn FnMut(&mut I::Item)) -> (bool, Vec<I::Item>) {
+        (false, self.rest_each(f))
     }
     fn rest_count(self) -> usize {
         self.0.count()
@@ -271,6 +280,17 @@ where
             v.push(x)
         });
         v
+    }
+    fn rest_collect(self) -> Vec<I::Item> {
+        self.0.collect()
+    }
+    fn rest_rev_each(self, f: &mut dyn FnMut(&mut I::Item)) -> (bool, Vec<I::Item>) {
+        let mut v = Vec::new();
+        self.0.rev().for_each(|mut x| {
+            f(&mut x);
+            v.push(x)
+        });
+        (true, v)
     }
     fn rest_count(self) -> usize {
         self.0.count()
@@ -399,6 +419,42 @@ pub fn run_prog<P: ProgIt>(mut it: P, prog: &[ItOp], total: usize, reference: Op
                     front += 1;
                     out.consumed += 1;
                     out.yielded.push((false, x));
+                    out.skipped.push(0);
+                }
+                return (out, None);
+            }
+            ItOp::RestCollect => {
+                // no client use of the elements: the iterator is gone when collect returns
+                let v = it.rest_collect();
+                if v.len() != rem {
+                    out.problems.push((if v.len() > rem { "too_many" } else { "early_none" }, format!("op {}: collect() gave {} elements, {} remained", i, v.len(), rem)));
+                }
+                for x in v {
+                    positional!(i, &x, front);
+                    front += 1;
+                    out.consumed += 1;
+                    out.yielded.push((false, x));
+                    out.skipped.push(0);
+                }
+                return (out, None);
+            }
+            ItOp::RestRevEach => {
+                let (from_back, v) = it.rest_rev_each(on_yield);
+                if v.len() != rem {
+                    out.problems.push((if v.len() > rem { "too_many" } else { "early_none" }, format!("op {}: rev().for_each visited {} elements, {} remained", i, v.len(), rem)));
+                }
+                for x in v {
+                    if from_back {
+                        if back > front {
+                            positional!(i, &x, back - 1);
+                            back -= 1;
+                        }
+                    } else {
+                        positional!(i, &x, front);
+                        front += 1;
+                    }
+                    out.consumed += 1;
+                    out.yielded.push((from_back, x));
                     out.skipped.push(0);
                 }
                 return (out, None);
@@ -1074,7 +1130,7 @@ pub fn exec(q: &mut AnyQ, m: &mut Model, st: &Step, cx: &mut Ctx) {
                 AnyQ::Dpq(x) => {
                     // positional reference only for programs that stay at the front (ties make the
                     // two ends of a min-max heap interact)
-                    let front_only = !prog.iter().any(|o| matches!(o, ItOp::NextBack | ItOp::NthBack(_) | ItOp::RestLast));
+                    let front_only = !prog.iter().any(|o| matches!(o, ItOp::NextBack | ItOp::NthBack(_) | ItOp::RestLast | ItOp::RestRevEach));
                     let reference: Option<Vec<u32>> = if front_only { Some(x.clone().into_sorted_iter().map(|(k, _)| k.id()).collect()) } else { None };
                     let (out, _it) = run_prog(Dbl(x.into_sorted_iter()), prog, before.len(), reference.as_deref(), &|x: &(Key, Prio)| x.0.id(), &mut |_| {});
                     for (cl, msg) in &out.problems {
